@@ -153,6 +153,8 @@ class Engine:
     def get_field(self, st, obj: SV, field):
         if field == "nodes" and obj.ty.sort == Ref and isinstance(self.content_type(obj), GraphT):
             return obj        # G.nodes: a live view; iteration / membership are those of the graph itself
+        if field == "edges" and obj.ty.sort == Ref and isinstance(self.content_type(obj), GraphT):
+            return SV(obj.v, T.EdgeViewT(self.content_type(obj)))
         if not isinstance(obj.ty, RefT):
             raise Unsupported("attribute %s on %s" % (field, obj.ty))
         cc = self.reg.class_const(obj.ty.cls, field)
@@ -655,9 +657,24 @@ class Engine:
         if sv.ty is INT and z3.is_int_value(sv.v): return sv.v.as_long()
         return None
 
+    def eidx_of(self, st, gref, ct):
+        es = ct.elem.sort
+        return st.H(ct.eidx_region, z3.ArraySort(es, z3.ArraySort(es, I)))[gref]
+
     def subscript(self, o, ix, st, n):
         t = o.ty
         k = self.static_int(ix)
+        if isinstance(o.py, tuple) and o.py and o.py[0] == "edge":
+            if ix.py != "index": raise Unsupported("edge attribute %r" % (ix.py,))
+            yield st, SV(self.eidx_of(st, o.v, o.ty.g)[o.py[1]][o.py[2]], INT); return
+        if isinstance(t, T.EdgeViewT):
+            # G.edges[(a, b)] -> the attribute dict of that edge (KeyError if there is no such edge)
+            if not (isinstance(ix.ty, TupT) and len(ix.ty.items) == 2): raise Unsupported("edge key")
+            a, b = ix.ty.get(ix.v, 0), ix.ty.get(ix.v, 1)
+            ed = st.H(t.g.edge_region, z3.ArraySort(t.g.elem.sort, z3.ArraySort(t.g.elem.sort, B)))[o.v]
+            res = SV(o.v, T.EdgeViewT(t.g)); res.py = ("edge", a, b)
+            yield from self.fork_exc(st, ed[a][b], lambda s: res, "KeyError", n); return
+        
         if o.py is not None and isinstance(o.py, str) and k is not None:
             yield st, self.const(o.py[k]); return
         if t is NODE:
